@@ -161,9 +161,17 @@ def run(rep, pdb, tier):
     n_sites = rule_index_kinds(rep, pdb, solve_fns)
     n_cmp = rule_magnitude(rep, pdb, ["%s::solve_basic" % M, "%s::solve_lu" % M])
     # ---- Gaussian elimination
-    mac = fn_or_missing(rep, pdb, "%s::max_abs_in_column" % M, "anchor/max_abs_in_column")
+    mac = pdb.fn("%s::max_abs_in_column" % M)
+    inline_am = None
     if mac is not None:
         check_argmax(rep, pdb, mac, "max_abs_in_column", P(2), ROWS, 1, lambda c: P(1))
+    else:
+        # the search written out where it is used: in partial_pivot(x, k), searching rows k.. of column k
+        pp0 = pdb.fn("%s::partial_pivot" % M)
+        if pp0 is None:
+            rep.missing("anchor/max_abs_in_column", "the pivot search exists (as max_abs_in_column, or written out in partial_pivot)", "neither found")
+        else:
+            inline_am = check_argmax(rep, pdb, pp0, "max_abs_in_column", P(2), ROWS, 1, lambda c: P(2))
     # the pivot step: in partial_pivot(x, k), or written out in the elimination loop of gauss_with_pivot
     pp = pdb.fn("%s::partial_pivot" % M)
     host, kterm = (pp, P(2)) if pp is not None else (pdb.fn("%s::gauss_with_pivot" % M), None)
@@ -183,19 +191,23 @@ def run(rep, pdb, tier):
             kterm = r_[0] if r_ else None
         where_ = "partial_pivot" if pp is not None else "gauss_with_pivot"
         ok_s = srch is not None and kterm is not None and [ctx.term(a) for a in call_args(srch)] == [P(0), kterm, kterm]
+        if srch is None and inline_am is not None and pp is not None:
+            # the inlined search: its range and column were decided above against k; what remains is that it is unconditional
+            srch = inline_am.loop
+            ok_s = True
         # the pivot step is taken at every elimination step: neither the search nor the call of partial_pivot is conditional
         gw_ = pdb.fn("%s::gauss_with_pivot" % M)
         ppcalls = [n for n in walk(gw_["body"]) if n.get("k") == "MethodCall" and callee_path(n) == "%s::partial_pivot" % M] if gw_ is not None and pp is not None else []
         cond_ = [a_ for n_ in ([srch] if srch is not None else []) + ppcalls for a_ in ancestors(n_) if a_.get("k") in ("If", "Match")]
         ok_s = ok_s and not cond_
         rep.add("search-range/partial_pivot", "the column searched and the first row searched are both the elimination index k, and the pivot step is unconditional", ok_s, srch or host["body"],
-                "in %s: max_abs_in_column args=%s" % (where_, [show(ctx.term(a), ctx) for a in call_args(srch)] if srch else None))
+                "in %s: max_abs_in_column args=%s" % (where_, [show(ctx.term(a), ctx) for a in call_args(srch)] if srch is not None and srch.get("k") == "MethodCall" else "search written out in place"))
         ok_x = sw is not None and xs is not None and srch is not None
         det = ""
         if ok_x:
             a = [ctx.term(x) for x in call_args(sw)]
             b = [ctx.term(x) for x in call_args(xs)]
-            piv = ctx.term(srch)
+            piv = ctx.term(srch) if inline_am is None else inline_am.idx_var
             same_ctx = [x for x in ancestors(sw) if x.get("k") in ("For", "If", "While")] == [x for x in ancestors(xs) if x.get("k") in ("For", "If", "While")] == \
                 [x for x in ancestors(srch) if x.get("k") in ("For", "If", "While")]
             ok_x = a[0] == P(0) and b[0] == P(1) and set(a[1:]) == set(b[1:]) == {piv, kterm} and same_ctx and _pos(srch) < min(_pos(sw), _pos(xs))
